@@ -7,6 +7,7 @@ import (
 	"fmt"
 	"hash/crc32"
 	"io"
+	"strings"
 	"time"
 	"unicode/utf8"
 
@@ -21,6 +22,9 @@ type zipSpec struct {
 	Count   int    `json:"count"`
 	Name    int    `json:"name"`
 	Pay     int    `json:"pay"`
+	// Stamps: header field grid archive: one member per stamp (names s00.., payload
+	// "hello"), Count/Name/Pay unused. Empty: every member carries zipTime.
+	Stamps []zipStamp `json:"stamps,omitempty"`
 }
 
 type zipMember struct {
@@ -37,9 +41,12 @@ type zipMember struct {
 	Zip64      bool
 	Nested     string
 	Inner      []byte
-	ModUnix    int64
-	CRCOffsets []int // offsets of stored copies of the CRC-32
-	ExtTS      bool  // archive/zip CreateHeader adds an extended timestamp extra field
+	Stamp      zipStamp
+	FatDate    uint16 // the MS-DOS words as stored in the local header and the central directory record
+	FatTime    uint16
+	ExtM       uint32 // extended timestamp modification time as stored
+	CRCOffsets []int  // offsets of stored copies of the CRC-32
+	ExtTS      bool   // an extended timestamp extra field (0x5455, flags 1, modification time) follows the name
 }
 
 type zipExp struct {
@@ -59,9 +66,29 @@ func zipBuild(spec any) *genFile {
 	if sp.Comment {
 		exp.Comment = "archive comment é"
 	}
-	for i := 0; i < sp.Count; i++ {
+	count := sp.Count
+	if len(sp.Stamps) > 0 {
+		count = len(sp.Stamps)
+	}
+	for i := 0; i < count; i++ {
 		p := payloads[(sp.Pay+i)%len(payloads)]
 		m := &zipMember{Name: names[(sp.Name+i)%len(names)], Method: sp.Method, DD: sp.DD, Payload: p.Data, Nested: p.Nested, Inner: p.Inner}
+		if len(sp.Stamps) > 0 {
+			m.Name, m.Payload, m.Nested, m.Inner = fmt.Sprintf("s%02d", i), payloads[2].Data, "", nil
+			p = payloads[2]
+			m.Stamp = sp.Stamps[i]
+		} else {
+			m.Stamp = zipStamp{U: i64p(zipTime.Unix())}
+			m.Stamp.D, m.Stamp.T = dosWords(zipTime)
+		}
+		if sp.DD {
+			// the streaming writer derives the words from the time
+			m.Stamp.D, m.Stamp.T = dosWords(time.Unix(*m.Stamp.U, 0).UTC())
+		}
+		m.FatDate, m.FatTime = m.Stamp.D, m.Stamp.T
+		if m.Stamp.U != nil && (sp.DD || len(sp.Stamps) > 0) && sp.Writer != "zip64" {
+			m.ExtTS, m.ExtM = true, uint32(*m.Stamp.U)
+		}
 		m.CRC = crc32.ChecksumIEEE(p.Data)
 		m.Comp = p.Data
 		if sp.Method == 8 {
@@ -82,12 +109,40 @@ func zipBuild(spec any) *genFile {
 			return nil
 		}
 	}
-	f := &genFile{Data: data, Exp: exp, Zero: sp.Count == 0}
-	f.Desc = fmt.Sprintf("writer=%s method=%d dd=%v comment=%v members=%d", sp.Writer, sp.Method, sp.DD, sp.Comment, sp.Count)
-	if sp.Count > 0 {
+	// what the writer really stored: the words are read back from their fixed offsets
+	// (local header +10/+12, central directory record +12/+14) and must be the ones asked for
+	for _, m := range exp.Members {
+		le := binary.LittleEndian
+		for _, o := range []int{m.HeaderOff + 10, m.CDOff + 12} {
+			if le.Uint16(data[o:]) != m.FatTime || le.Uint16(data[o+2:]) != m.FatDate {
+				panic(fmt.Sprintf("c15 harness error: zip writer %s stored DOS time/date %04x/%04x at %d, asked for %04x/%04x", sp.Writer, le.Uint16(data[o:]), le.Uint16(data[o+2:]), o, m.FatTime, m.FatDate))
+			}
+		}
+	}
+	f := &genFile{Data: data, Exp: exp, Zero: count == 0}
+	f.Desc = fmt.Sprintf("writer=%s method=%d dd=%v comment=%v members=%d", sp.Writer, sp.Method, sp.DD, sp.Comment, count)
+	if len(sp.Stamps) > 0 {
+		f.Desc += " stamps="
+		for i, st := range sp.Stamps {
+			if i > 0 {
+				f.Desc += ","
+			}
+			if sp.DD {
+				f.Desc += fmt.Sprintf("u%d", *st.U)
+			} else if st.U != nil {
+				f.Desc += fmt.Sprintf("%04x:%04x:u%d", st.D, st.T, *st.U)
+			} else {
+				f.Desc += fmt.Sprintf("%04x:%04x", st.D, st.T)
+			}
+		}
+	} else if sp.Count > 0 {
 		f.Desc += fmt.Sprintf(" name=%s payload=%s", nameLabels[sp.Name], payloads[sp.Pay].Name)
 	}
-	f.Nontriv = sp.Count > 0
+	f.Nontriv = count > 0
+	if len(sp.Stamps) > 0 {
+		// header field grid archives take no part in the fault enumeration
+		return f
+	}
 	for i, m := range exp.Members {
 		pre := fmt.Sprintf("member%d.", i)
 		f.Regions = append(f.Regions, region{Name: pre + "data", Start: m.DataOff, End: m.DataOff + len(m.Comp), Kind: "covered", Checksum: "crc32_uncompressed"})
@@ -104,10 +159,9 @@ func stdZip(exp *zipExp) []byte {
 	var buf bytes.Buffer
 	w := zip.NewWriter(&buf)
 	for _, m := range exp.Members {
-		fh := &zip.FileHeader{Name: m.Name, Method: uint16(m.Method), Modified: zipTime}
-		m.ModUnix = zipTime.Unix()
+		fh := &zip.FileHeader{Name: m.Name, Method: uint16(m.Method)}
 		if m.DD {
-			m.ExtTS = true
+			fh.Modified = time.Unix(*m.Stamp.U, 0).UTC()
 			fw, err := w.CreateHeader(fh)
 			if err != nil {
 				return nil
@@ -116,7 +170,11 @@ func stdZip(exp *zipExp) []byte {
 				return nil
 			}
 		} else {
-			fh.SetModTime(zipTime) //nolint: CreateRaw writes the legacy DOS fields as they are
+			// CreateRaw writes the legacy DOS fields and the extra bytes as they are
+			fh.ModifiedDate, fh.ModifiedTime = m.FatDate, m.FatTime
+			if m.ExtTS {
+				fh.Extra = binary.LittleEndian.AppendUint32([]byte{0x55, 0x54, 5, 0, 1}, m.ExtM)
+			}
 			fh.CRC32 = m.CRC
 			fh.CompressedSize64 = uint64(len(m.Comp))
 			fh.UncompressedSize64 = uint64(len(m.Payload))
@@ -193,8 +251,6 @@ func handZip64(exp *zipExp) []byte {
 	w16 := func(v uint16) { _ = binary.Write(&b, le, v) }
 	w32 := func(v uint32) { _ = binary.Write(&b, le, v) }
 	w64 := func(v uint64) { _ = binary.Write(&b, le, v) }
-	dosTime := uint16(zipTime.Hour()<<11 | zipTime.Minute()<<5 | zipTime.Second()/2)
-	dosDate := uint16((zipTime.Year()-1980)<<9 | int(zipTime.Month())<<5 | zipTime.Day())
 	flags := func(m *zipMember) uint16 {
 		if m.UTF8 {
 			return 0x800
@@ -208,8 +264,8 @@ func handZip64(exp *zipExp) []byte {
 		w16(45)
 		w16(flags(m))
 		w16(uint16(m.Method))
-		w16(dosTime)
-		w16(dosDate)
+		w16(m.FatTime)
+		w16(m.FatDate)
 		m.CRCOffsets = []int{b.Len()}
 		w32(m.CRC)
 		w32(0xffffffff)
@@ -233,8 +289,8 @@ func handZip64(exp *zipExp) []byte {
 		w16(45)
 		w16(flags(m))
 		w16(uint16(m.Method))
-		w16(dosTime)
-		w16(dosDate)
+		w16(m.FatTime)
+		w16(m.FatDate)
 		m.CRCOffsets = append(m.CRCOffsets, b.Len())
 		w32(m.CRC)
 		w32(0xffffffff)
@@ -296,6 +352,19 @@ func zipEnum(r *core.Run, emit func(any)) {
 			}
 		}
 	}
+	// header field grid: modification times over the boundary values of every MS-DOS
+	// date/time field and of the extended timestamp, for local file headers and central
+	// directory records of all three writers
+	wide := r.Thorough()
+	for _, method := range []int{0, 8} {
+		for _, g := range stampGroups(zipStampsRaw(wide), core.Pick(r, 16, 64)) {
+			emit(&zipSpec{Writer: "std", Method: method, Stamps: g})
+			emit(&zipSpec{Writer: "zip64", Method: method, Stamps: g})
+		}
+		for _, g := range stampGroups(zipStampsStream(wide), 16) {
+			emit(&zipSpec{Writer: "std", Method: method, DD: true, Stamps: g})
+		}
+	}
 	// forced zip64 form (hand-written writer): reduced name/payload grid in quick, full in thorough
 	{
 		for _, method := range []int{0, 8} {
@@ -321,8 +390,11 @@ func zipEnum(r *core.Run, emit func(any)) {
 const zipProg = `
 def hdr: {sig: (.signature|desc), ver: (.version_needed|act), dd: (.flags.data_descriptor|act), utf8: (.flags.language_encoding|act), method: (.compression_method|act),
   t: (.last_modification | [(.hour|act),(.minute|act),(.second|act),(.day|act),(.month|act),(.year|act)]),
+  tx: (.last_modification | {ft: (.fat_time|act), fd: (.fat_date|act), second_sym: (.second|._sym|plain), year_sym: (.year|._sym|plain), ug: (.unix_guess|act), ug_desc: (.unix_guess|desc)}),
   crc: (.crc32_uncompressed|act), csize: (.compressed_size|act), usize: (.uncompressed_size|act), name: (.file_name|act), fnl: (.file_name_length|act), efl: (.extra_field_length|act),
-  extra: [.extra_fields[]? | {tag: (.tag|act), size: (.size|act), mtime: (.modification_time|act), z64: [(.uncompressed_size|act), (.compressed_size|act), (.relative_offset_of_local_file_header|act)]}]};
+  extra: [.extra_fields[]? | {tag: (.tag|act), size: (.size|act), mtime: (.modification_time|act), mtime_desc: (.modification_time|desc),
+     tsflags: (.flags | if type == "null" then null else [(.unused|act), (.creation_time_present|act), (.access_time_present|act), (.modification_time_present|act)] end),
+     atime: (.access_time|act), ctime: (.creation_time|act), z64: [(.uncompressed_size|act), (.compressed_size|act), (.relative_offset_of_local_file_header|act)]}]};
 def obs: {
   err: errs, fmt: (try format catch null), validity: validity,
   eocd: (.end_of_central_directory_record | {sig: (.signature|desc), disk: (.disk_nr|act), n: (.nr_of_central_directory_records|act), n_disk: (.nr_of_central_directory_records_on_disk|act),
@@ -384,13 +456,33 @@ func zipCheck(f *genFile, o map[string]any, probe bool) []mm {
 		c.str(pre+".file_name", h["name"], m.Name)
 		c.num(pre+".file_name_length", h["fnl"], int64(len(m.Name)))
 		t, _ := h["t"].([]any)
-		want := []int64{12, 34, 28, 17, 5, 40}
+		df := dosRead(m.FatDate, m.FatTime)
+		want := []int64{df.Hour, df.Minute, df.Second2, df.Day, df.Month, df.Year}
 		for i, w := range want {
 			if i >= len(t) {
 				c.add(pre+".last_modification", "missing time fields")
 				break
 			}
 			c.num(pre+".last_modification."+[]string{"hour", "minute", "second", "day", "month", "year"}[i], t[i], w)
+		}
+		if tx, _ := h["tx"].(map[string]any); tx == nil {
+			c.add(pre+".last_modification", "missing time fields")
+		} else {
+			lm := pre + ".last_modification."
+			c.num(lm+"fat_time", tx["ft"], int64(m.FatTime))
+			c.num(lm+"fat_date", tx["fd"], int64(m.FatDate))
+			// the values fq displays: seconds (stored halved) and the year (stored relative to 1980)
+			c.num(lm+"second.sym", tx["second_sym"], df.Second2*2)
+			c.num(lm+"year.sym", tx["year_sym"], df.Year+1980)
+			if df.Valid {
+				c.num(lm+"unix_guess", tx["ug"], df.Unix)
+				c.str(lm+"unix_guess.description", tx["ug_desc"], df.Text)
+			}
+			for i := range c.ms {
+				if strings.HasPrefix(c.ms[i].Sig, "zip:"+lm) && !strings.Contains(c.ms[i].What, "(entry ") {
+					c.ms[i].What += fmt.Sprintf(" (entry %q, stored fat_date 0x%04x fat_time 0x%04x)", m.Name, m.FatDate, m.FatTime)
+				}
+			}
 		}
 		crc, cs, us := int64(m.CRC), int64(len(m.Comp)), int64(len(m.Payload))
 		if m.Zip64 {
@@ -426,12 +518,30 @@ func zipCheck(f *genFile, o map[string]any, probe bool) []mm {
 			return
 		}
 		// archive/zip writes one extended timestamp field (0x5455) with the modification time
+		// (the raw writer stores the same 9 bytes)
+		if len(ex) != 1 {
+			c.add(pre+".extra_fields", fmt.Sprintf("fq reports %d extra fields, written 1 (extended timestamp): %s", len(ex), show(h["extra"])))
+		}
+		c.num(pre+".extra_field_length", h["efl"], 9)
 		found := false
 		for _, xe := range ex {
 			x, _ := xe.(map[string]any)
 			if t, _ := gi(x["tag"]); t == 0x5455 {
 				found = true
-				c.num(pre+".extra.extended_timestamp.modification_time", x["mtime"], m.ModUnix)
+				xt := pre + ".extra.extended_timestamp."
+				c.num(xt+"size", x["size"], 5)
+				c.num(xt+"modification_time", x["mtime"], int64(m.ExtM))
+				c.str(xt+"modification_time.description", x["mtime_desc"], rfc3339UTC(int64(m.ExtM)))
+				if fl, _ := x["tsflags"].([]any); len(fl) != 4 {
+					c.add(xt+"flags", "no flags struct: "+show(x["tsflags"]))
+				} else {
+					c.num(xt+"flags.unused", fl[0], 0)
+					c.boolean(xt+"flags.creation_time_present", fl[1], false)
+					c.boolean(xt+"flags.access_time_present", fl[2], false)
+					c.boolean(xt+"flags.modification_time_present", fl[3], true)
+				}
+				c.absent(xt+"access_time", x["atime"])
+				c.absent(xt+"creation_time", x["ctime"])
 			}
 		}
 		if !found {
